@@ -154,8 +154,8 @@ class CallMixin:
         if q is not None:
             return self.call_contract(q, n, st, old)
         # ---- uninterpreted functions
-        if name in self.m.ufuns:
-            asorts, ret = self.m.ufuns[name]
+        if name in self.m.ufuns or name in self.m.defs:
+            asorts, ret = self.m.ufuns.get(name) or self.m.defs[name]
             args = [self.coerce(self.ev(a, st, old), s, name) for a, s in zip(n.args, asorts)]
             return c.app(name, asorts, ret, args)
         return self.opaque_call(n, st, old)
@@ -312,7 +312,7 @@ class CallMixin:
                 ok = {"Seq": ("list", "tuple"), "Map": ("dict",), "Set": ("set",)}[v.sort[0]]
                 outs.append("true" if nm in ok else "false")
                 continue
-            h = self.isinstance_hook(v, nm, st) if hasattr(self, "isinstance_hook") else None
+            h = self.m.hooks["isinstance"](self, v, nm, st) if "isinstance" in self.m.hooks else None
             if h is not None:
                 outs.append(h)
                 continue
@@ -379,7 +379,13 @@ class CallMixin:
         if isinstance(s, tuple) and s[0] == "Seq":
             if at == "append" and len(n.args) == 1:
                 x = self.coerce(self.ev(n.args[0], st, old), s[1], "append")
-                if self.store_back(f.value, T(s, f"(seq.++ {recv.s} (seq.unit {x.s}))"), st):
+                # array-like axiomatisation (solvers handle nth-quantifiers far better than seq.++ under quantifiers)
+                r = self.opaque("app", s)
+                st.pc.append(f"(= {r.s} (seq.++ {recv.s} (seq.unit {x.s})))")
+                st.pc.append(f"(= (seq.len {r.s}) (+ (seq.len {recv.s}) 1))")
+                st.pc.append(f"(forall ((|q_a| Int)) (! (=> (and (>= |q_a| 0) (< |q_a| (seq.len {recv.s}))) (= (seq.nth {r.s} |q_a|) (seq.nth {recv.s} |q_a|))) :pattern ((seq.nth {r.s} |q_a|)) :pattern ((seq.nth {recv.s} |q_a|))))")
+                st.pc.append(f"(= (seq.nth {r.s} (seq.len {recv.s})) {x.s})")
+                if self.store_back(f.value, r, st):
                     return T(NONE, "none")
             if at == "extend" and len(n.args) == 1:
                 x = self.ev(n.args[0], st, old)
